@@ -1,6 +1,6 @@
 \* C06 random walks (tlc -simulate -depth SimDepth+1): longer chains, up to 3 successive forks, restart, RPC failures
 CONSTANTS
-  N = 7
+  N = 9
   Chunks = {1,2,3}
   TipTags = {"latest"}
   BufCap = 2
@@ -14,7 +14,7 @@ CONSTANTS
   Contents = {0,1}
   FinLag = 2
   NoIdle = TRUE
-  SimDepth = 119
+  SimDepth = 199
 INIT Init
 NEXT Next
 ACTION_CONSTRAINT Dump
